@@ -30,6 +30,7 @@ type Ev struct {
 	wfSeen map[string]bool
 	qindex map[string][][2]string // bound variable -> (offset term, select term) of its uses as a plain slice index (first two distinct arrays)
 	inTypeInv bool
+	noPack bool
 	instSig *types.Signature
 	allocPred string // at a call site: the predicate 'allocated by this call'
 }
